@@ -76,15 +76,20 @@ theorem mostSpecific_sameMembers (h : Hier) (l₁ l₂ : List ClassId) (hs : Sam
     exact ⟨fun ⟨b, hb, hp⟩ => ⟨b, (hs b).mp hb, hp⟩, fun ⟨b, hb, hp⟩ => ⟨b, (hs b).mpr hb, hp⟩⟩
   simp only [mostSpecific, List.mem_filter, hany, hs a]
 
-theorem commonAncestors_mem (h : Hier) (c0 : ClassId) (cs : List ClassId) (hc0 : c0 ∈ cs) (a : ClassId) :
-    a ∈ commonAncestors h c0 (cs.map Ty.cls) ↔ (a != objectC) = true ∧ ∀ c ∈ cs, h.sub c a = true := by
-  simp only [commonAncestors, List.mem_filter, Bool.and_eq_true, List.all_eq_true, List.mem_map]
+theorem commonAncestors_mem (h : Hier) (cs : List ClassId) (hne : cs ≠ []) (a : ClassId) :
+    a ∈ commonAncestors h (cs.map Ty.cls) ↔
+      ((a != objectC) = true ∧ h.unchk a = false) ∧ ∀ c ∈ cs, h.sub c a = true := by
+  simp only [commonAncestors, List.mem_filter, Bool.and_eq_true, List.all_eq_true, List.mem_map, List.mem_eraseDups,
+    Bool.not_eq_true']
   constructor
-  · rintro ⟨_, hne, hall⟩
-    exact ⟨hne, fun c hc => by simpa using hall (.cls c) ⟨c, hc, rfl⟩⟩
-  · rintro ⟨hne, hall⟩
-    refine ⟨?_, hne, ?_⟩
-    · have := hall c0 hc0
+  · rintro ⟨_, hne', hall⟩
+    exact ⟨hne', fun c hc => by simpa using hall (.cls c) ⟨c, hc, rfl⟩⟩
+  · rintro ⟨hne', hall⟩
+    refine ⟨?_, hne', ?_⟩
+    · obtain ⟨c0, rest, rfl⟩ := List.exists_cons_of_ne_nil hne
+      have := hall c0 List.mem_cons_self
+      simp only [classMros, List.map_cons, List.flatMap_cons, List.mem_append]
+      left
       simpa [Hier.sub] using this
     · rintro t ⟨c, hc, rfl⟩
       simpa using hall c hc
@@ -98,24 +103,18 @@ theorem toTupleOf_classes (cs : List ClassId) (hne : cs ≠ []) : toTupleOf (cs.
 theorem largeUnionCollapse_classes_perm (h : Hier) (cs cs' : List ClassId) (hp : cs.Perm cs')
     (hinj : ∀ a b, h.rank a = h.rank b → a = b) :
     largeUnionCollapse h (cs.map Ty.cls) = largeUnionCollapse h (cs'.map Ty.cls) := by
-  cases cs with
-  | nil => rw [List.Perm.eq_nil hp.symm]
-  | cons c0 rest =>
-    cases cs' with
-    | nil => exact absurd (List.Perm.eq_nil hp) (by simp)
-    | cons c0' rest' =>
-      have hall : ∀ l : List ClassId, (l.map Ty.cls).all (fun t => t.clsId?.isSome) = true := by
-        intro l; simp [List.all_eq_true, Ty.clsId?]
-      have hsame : SameMembers (commonAncestors h c0 ((c0 :: rest).map Ty.cls)) (commonAncestors h c0' ((c0' :: rest').map Ty.cls)) := by
-        intro a
-        rw [commonAncestors_mem h c0 (c0 :: rest) List.mem_cons_self, commonAncestors_mem h c0' (c0' :: rest') List.mem_cons_self]
-        exact ⟨fun ⟨h1, h2⟩ => ⟨h1, fun c hc => h2 c (hp.mem_iff.mpr hc)⟩, fun ⟨h1, h2⟩ => ⟨h1, fun c hc => h2 c (hp.mem_iff.mp hc)⟩⟩
-      have hmin := minByRank_sameMembers h _ _ (mostSpecific_sameMembers h _ _ hsame) (fun a b _ _ => hinj a b)
-      unfold largeUnionCollapse
-      rw [toTupleOf_classes (c0 :: rest) (by simp), toTupleOf_classes (c0' :: rest') (by simp)]
-      simp only [List.map_cons] at hall hmin ⊢
-      have h1 := hall (c0 :: rest); have h2 := hall (c0' :: rest')
-      simp only [List.map_cons] at h1 h2
-      rw [if_pos h1, if_pos h2, hmin]
+  by_cases hne : cs = []
+  · subst hne; rw [List.Perm.eq_nil hp.symm]
+  · have hne' : cs' ≠ [] := fun e => hne (by subst e; exact List.Perm.eq_nil hp)
+    have hall : ∀ l : List ClassId, (l.map Ty.cls).all (fun t => t.clsId?.isSome) = true := by
+      intro l; simp [List.all_eq_true, Ty.clsId?]
+    have hsame : SameMembers (commonAncestors h (cs.map Ty.cls)) (commonAncestors h (cs'.map Ty.cls)) := by
+      intro a
+      rw [commonAncestors_mem h cs hne, commonAncestors_mem h cs' hne']
+      exact ⟨fun ⟨h1, h2⟩ => ⟨h1, fun c hc => h2 c (hp.mem_iff.mpr hc)⟩, fun ⟨h1, h2⟩ => ⟨h1, fun c hc => h2 c (hp.mem_iff.mp hc)⟩⟩
+    have hmin := minByRank_sameMembers h _ _ (mostSpecific_sameMembers h _ _ hsame) (fun a b _ _ => hinj a b)
+    unfold largeUnionCollapse
+    rw [toTupleOf_classes cs hne, toTupleOf_classes cs' hne']
+    simp only [hall, if_true, hmin]
 
 end MT
